@@ -7,6 +7,7 @@
   Constructor calls (`Interval(a, b)`) are mapped to `CR.Iv.mk` by the translator (tied by correspondence only).
 -/
 import Gen.Src
+import Gen.SrcC04
 import CRProofs.Interval
 namespace CR.Iv
 
@@ -214,5 +215,60 @@ theorem tie_angle_setters (τ : Rat) (i : I) (x : Rat) :
       simp [h0, h, bind, Except.bind, pure, Except.pure, Except.map, CR.Py.assert]
   · by_cases h0 : validOrientation τ x = true <;> by_cases h : i.lo ≤ x <;>
       simp [h0, h, bind, Except.bind, pure, Except.pure, Except.map, CR.Py.assert, ge_iff_le]
+
+/-! ## second part: the functions translated by harness/translate/src_c04.py (module Gen.SrcC04) -/
+
+/-- `Interval(a, b)` through the TRANSLATED constructor (Gen.Src `Interval_init`, its fields read back) is the model's `mk`:
+    from here on constructor calls inside translated functions are tied by translation too. -/
+theorem tie_interval_new (a b : Rat) : Gen.Interval_new a b = mk a b := by
+  unfold Gen.Interval_new
+  rw [tie_init]
+  unfold mk
+  split <;> rfl
+
+/-- `Interval.__round__(n)` of the current source: both bounds rounded with the SAME `n` (`rnd n` = `round(·, n)`), handed to the constructor. -/
+theorem tie_round (rnd : Option Int → Rat → Rat) (i : I) (n : Option Int) :
+    Gen.Interval_round rnd i n = round (rnd n) i := by
+  unfold Gen.Interval_round round
+  rw [tie_interval_new]
+  all_goals (cases mk (rnd n i.lo) (rnd n i.hi) <;> rfl)
+
+theorem tie_dunder_contains (i : I) (x : Rat) : Gen.Interval_dunder_contains i x = contains i x := rfl
+
+/-- `AngleInterval(s, e)` through the translated constructor is the model's `mkAngle`. -/
+theorem tie_angle_new (τ s e : Rat) :
+    Gen.AngleInterval_new τ ((fuelFor τ s + fuelFor τ e) + (fuelFor τ s + fuelFor τ e)) s e = mkAngle τ s e := by
+  unfold Gen.AngleInterval_new
+  rw [tie_angle_init]
+  cases mkAngle τ s e <;> rfl
+
+/-- `AngleInterval + k` / `- k` of the current source (`Interval.__add__` / `__sub__` with `type(self)` = AngleInterval): the
+    shifted bounds go through the AngleInterval constructor (normalisation, length and orientation checks) — `addAngle` /
+    `subAngle`. -/
+theorem tie_angle_add (τ : Rat) (i : I) (k : Rat) :
+    Gen.AngleInterval_add τ ((fuelFor τ (i.lo + k) + fuelFor τ (i.hi + k)) + (fuelFor τ (i.lo + k) + fuelFor τ (i.hi + k))) i k
+      = addAngle τ i k := by
+  unfold Gen.AngleInterval_add addAngle
+  rw [tie_angle_new]
+  all_goals (cases mkAngle τ (i.lo + k) (i.hi + k) <;> rfl)
+
+theorem tie_angle_sub (τ : Rat) (i : I) (k : Rat) :
+    Gen.AngleInterval_sub τ ((fuelFor τ (i.lo - k) + fuelFor τ (i.hi - k)) + (fuelFor τ (i.lo - k) + fuelFor τ (i.hi - k))) i k
+      = subAngle τ i k := by
+  unfold Gen.AngleInterval_sub subAngle
+  rw [tie_angle_new]
+  all_goals (cases mkAngle τ (i.lo - k) (i.hi - k) <;> rfl)
+
+/-- `validity.is_in_interval(x, lo, hi)` on scalars with both bounds given: closed containment (a crossed pair of bounds only
+    warns). -/
+theorem tie_is_in_interval (x lo hi : Rat) : Gen.is_in_interval x lo hi = .ok (decide (lo ≤ x) && decide (x ≤ hi)) := by
+  unfold Gen.is_in_interval
+  by_cases h : lo > hi <;> simp [h, CR.Py.assert, bind, Except.bind, pure, Except.pure, ge_iff_le]
+
+/-- `validity.is_valid_orientation(θ)` of the current source is the model's `validOrientation`: θ ∈ [-2π, 2π]. -/
+theorem tie_is_valid_orientation (τ x : Rat) : Gen.is_valid_orientation τ x = .ok (validOrientation τ x) := by
+  unfold Gen.is_valid_orientation
+  rw [tie_is_in_interval]
+  rfl
 
 end CR.Iv
